@@ -37,3 +37,5 @@ mod c03;
 mod gen_c05;
 #[cfg(kani)]
 mod c04;
+#[cfg(kani)]
+mod c11;
